@@ -190,7 +190,7 @@ def main():
     try:
         if a.replay:
             return props.replay(pid, a.replay)
-        rc = props.check(pid, a.tier, seed, use_cache=not a.no_cache and a.tier != 'thorough', jobs=a.jobs, t0=t0)
+        rc = props.check(pid, a.tier, seed, use_cache=not a.no_cache, jobs=a.jobs, t0=t0)
         return rc
     except Exception as e:
         if type(e).__name__ == 'Undecided':
